@@ -59,7 +59,8 @@ def r1_who_may_fetch(chk, prog):
                 chk.require(short_fn(b.path) in allowed, "R1", short_fn(b.path), "uncapped-fetch",
                             "Transport::fetch is called directly in %s: data from the repository is read without "
                             "the max_size_adapter bound" % b.path, site_of(t.sp))
-    chk.floor("R1", n, 4, "Transport::fetch call sites")
+    # configuration B (no `http` feature) has no HttpTransport dispatch call
+    chk.floor("R1", n, 4 if getattr(prog, "config", "A") == "A" else 3, "Transport::fetch call sites")
     # (fetch_max_size wraps: C05-R5, re-checked here in one obligation)
     ctx = async_body(prog, FETCH_MAX)
     if ctx is not None:
